@@ -76,7 +76,9 @@ def kind_of(beh):
 def signature(beh, i, why, rec=None):
     """action + framing + discriminating condition of the failing step."""
     st = beh[i] if i < len(beh) else {"a": "?"}
-    a0 = beh[0].get("arg") or {}
+    a0 = dict(beh[0].get("arg") or {})
+    if beh[0]["a"] == "qinit":
+        a0["path"] = "ring"
     cls = "crash" if why == "Crash" else "hang" if why == "Hang" else "rejected"
     cond = ""
     if rec and rec.get("obs"):
@@ -268,6 +270,81 @@ def bulk_behaviours(ck, n):
     return behs
 
 
+def ring_behaviours(ck, full):
+    """Fixed-size encode rings (8/16/32/64 bytes, never grown) driven through
+    mpt_queue_push: frames are pushed until the finished data ends exactly at the
+    storage end, the reader takes 1..cap-1 bytes from the front (so the ring offset
+    is > 0 and the finished part reaches the storage end), then further messages
+    follow and are encoded into the part in front of the offset; plus seeded
+    sessions of arbitrary sizes.  Call sequences only; message lengths are shaped
+    from the framings' known overhead of short zero-free messages (code byte +
+    delimiter, delimiter only for command text)."""
+    rng = ck.rng
+    behs = []
+
+    def msg_of(n, kind, zeros=False):
+        m = [1 + ((7 * j + n) % 9) for j in range(n)]          # small values: never a tail inline
+        if zeros and kind != "cmd" and n > 1:
+            for _ in range(rng.randrange(1, 3)):
+                m[rng.randrange(n)] = 0
+        return m
+
+    for cap in (8, 16, 32, 64):
+        cuts = list(range(1, cap))
+        if not full and cap > 16:
+            cuts = sorted(rng.sample(cuts, 10) + [1, cap - 1])
+        for kind in KINDS:
+            ov = 1 if kind == "cmd" else 2
+            for n in cuts:
+                # frames that fill the ring exactly
+                parts = []
+                left = cap
+                while left:
+                    sz = left if (left < 2 * (ov + 1) or rng.random() < 0.4) else rng.randrange(ov + 1, left - ov)
+                    parts.append(sz)
+                    left -= sz
+                beh = [{"a": "qinit", "arg": {"kind": kind, "m": 0, "cap": cap}}]
+                for sz in parts:
+                    beh.append({"a": "qsend", "arg": {"msg": msg_of(sz - ov, kind), "fl": []}})
+                beh.append({"a": "qflush", "arg": {"n": n}})
+                for _ in range(rng.randrange(1, 4)):
+                    ln = rng.randrange(0, max(1, min(cap // 2 - ov, 12)) + 1)
+                    beh.append({"a": "qsend", "arg": {"msg": msg_of(ln, kind, zeros=rng.random() < 0.3),
+                                                      "fl": [rng.randrange(1, cap) for _ in range(rng.randrange(0, 3))]}})
+                    if rng.random() < 0.3:
+                        beh.append({"a": "qflush", "arg": {"n": rng.randrange(1, cap)}})
+                beh.append({"a": "qend", "arg": {"x": 0}})
+                behs.append(beh)
+    for _ in range(600 if full else 120):                          # arbitrary sessions
+        kind = rng.choice(KINDS)
+        cap = rng.choice([5, 8, 13, 16, 32, 64, 300])
+        beh = [{"a": "qinit", "arg": {"kind": kind, "m": 0, "cap": cap}}]
+        for _ in range(rng.randrange(2, 9)):
+            ln = rng.randrange(0, max(1, cap // 2))
+            beh.append({"a": "qsend", "arg": {"msg": msg_of(ln, kind, zeros=rng.random() < 0.5),
+                                              "fl": [rng.randrange(1, cap) for _ in range(rng.randrange(0, 4))]}})
+            if rng.random() < 0.4:
+                beh.append({"a": "qflush", "arg": {"n": rng.randrange(1, cap)}})
+        beh.append({"a": "qend", "arg": {"x": 0}})
+        behs.append(beh)
+    return behs
+
+
+def ring_stats(behs, recs):
+    """dbg only: how often the finished part reached the storage end with the ring offset > 0
+    before a push (the 'encode in front of the offset' branch of mpt_queue_push)"""
+    n = wrapped = 0
+    prev = None
+    for r in recs:
+        d = r.get("dbg") or {}
+        if r.get("a") == "qsend":
+            if prev and prev.get("off", 0) > 0 and prev.get("done", 0) >= prev.get("max", 0) - prev.get("off", 0) > 0:
+                n += 1
+            wrapped += 1 if d.get("wrapped") else 0
+        prev = d if r.get("a", "").startswith("q") else None
+    return {"sessions": len(behs), "pushes_into_part_before_offset": n, "pushes_on_wrapped_ring": wrapped}
+
+
 def load_mpt_py():
     path = os.path.join(vlib.REPO, "mpt.py")
     spec = importlib.util.spec_from_file_location("mpt_client_under_test", path)
@@ -313,6 +390,8 @@ def python_events(ck, exe, msgs):
 def nontrivial_enc(beh, rs):
     """message spans a block boundary / zero pair / tail inline AND was refused or split at least once"""
     a0 = beh[0]["arg"]
+    if beh[0]["a"] == "qinit":      # ring session: some message was encoded while the ring content wrapped
+        return any((r.get("dbg") or {}).get("wrapped") for r in rs)
     m = a0.get("msg") or []
     lim = a0.get("m") or (223 if a0.get("kind", "").startswith("zpe") else 255)
     longrun = cur = 0
@@ -391,6 +470,9 @@ def run(tier):
     # 3. binding B: production block sizes through the public paths, judged by TLC
     msgs = run_structured(ck.rng, cfg["full"], cfg["nmsg"])
     pb = prod_behaviours(ck, msgs) + bulk_behaviours(ck, cfg["nbulk"])
+    rings = ring_behaviours(ck, cfg["full"])
+    nring0 = len(pb)
+    pb += rings
     precs, _ = vlib.run_driver(exe, vlib.to_script(pb), timeout=1200)
     precs = [norm(r) for r in precs]
     pev = events_of(pb, precs)
@@ -400,6 +482,7 @@ def run(tier):
     ck.notes["production_traces"] = len(pb)
     ck.notes["production_events"] = total
     ck.notes["production_push_installments"] = installments(precs)
+    ck.notes["fixed_ring_sessions"] = ring_stats(rings, [r for r in precs if r.get("b", -1) >= nring0])
     by2 = vlib.group_records(precs)
     for b, beh in enumerate(pb):
         if nontrivial_enc(beh, by2.get(b, [])):
